@@ -22,6 +22,10 @@ RULES = {
              "very bytes handed out and the checksum field of the decoded Metadata",
     "C01.4": "no entry is skipped because the plan ends inside it (= C03.3): when nothing is planned yet the planned range is widened to the size announced by the header at the cursor; "
              "the only branches that may bypass the widening are the enumerated ones (peek flag cleared only for offset-addressed reads, header beyond the used bytes, invalid header)",
+    "C01.5": "the consumer position is carried over when its tail block is sealed (SA between the two paths of Reader::append_block_to_chain): on each path the sealed block is pushed "
+             "onto the chain and then, under `tail_block_id == block.id` and only under it, cur_block_idx is set to the index of the block just pushed (len - 1) and cur_block_offset "
+             "to min(tail_offset, block.used); both paths do exactly the same. A path that forgets the fold re-delivers the sealed block from offset 0; one that folds under another "
+             "condition skips or repeats entries across a rotation",
 }
 
 
@@ -222,11 +226,10 @@ def check_header_tables(ctx, facts):
         else:
             ctx.violate("C01.2", n, "encoder-metadata-sources", b.relfile, line, "Metadata fields are built from %s" % md)
     n_dec = 0
-    for fn in ("block::Block::read", "walrus::Walrus::startup_chore", "batch_read_for_topic"):
-        b = facts.body(fn)
+    for b, s in fmtfeat.all_decode_sites(facts):
         ctx.saw_body(b)
         F = common.short_fn(b.name)
-        for s in fmtfeat.decode_sites(b):
+        if True:
             f = fmtfeat.decoder_features(b, s)
             n_dec += 1
             if f is None:
@@ -247,7 +250,12 @@ def check_header_tables(ctx, facts):
                 ctx.ok("C01.2", F, "decode dominated by 1 <= len <= %d" % bd["upper"], b.relfile, s.line)
             else:
                 ctx.violate("C01.2", F, "decoder-length-bound", b.relfile, s.line, "header decode is not dominated by 1 <= len <= PREFIX_META_SIZE-2 (found %s)" % bd)
-    ctx.floor("C01.2", "header decode sites", n_dec, 7)
+    ctx.floor("C01.2", "header decode sites", n_dec, 1)
+    for fn, has in fmtfeat.consumers_reach_decode(facts, ("block::Block::read", "walrus::Walrus::startup_chore", "batch_read_for_topic")).items():
+        if has:
+            ctx.ok("C01.2", fn, "reaches a checked header decode", trivial=True)
+        else:
+            ctx.violate("C01.2", "floor", "no header decode reachable from " + fn, None, None, "%s neither contains nor calls a Metadata header decode: the decoder rules would pass vacuously" % fn)
     # stride: every place that steps over an entry uses PREFIX_META_SIZE + read_size
     n_stride = 0
     for fn in ("block::Block::read", "batch_read_for_topic"):
@@ -314,6 +322,60 @@ def check_checksum_gate(ctx, facts):
     ctx.floor("C01.3", "Entry construction sites", n, 2)
 
 
+def check_seal_fold(ctx, facts):
+    from .core.cond import all_tests
+    b = facts.body("reader::Reader::append_block_to_chain")
+    ctx.saw_body(b)
+    F = common.short_fn(b.name)
+    blk = b.arg_local("block")
+    if blk is None:
+        blk = next((i for i in range(1, b.arg_count + 1) if b.local_ty(i) == "wal::block::Block"), None)
+    if blk is None:
+        ctx.anchor_missing("C01.5", "Block parameter of " + F)
+        return
+    bname = b.local_name(blk)
+    pushes = [c for c in b.calls(re.compile(r"Vec.*::push$")) if show(strip_refs(expr(b, c.node["args"][0])), 6).endswith(".chain")]
+    eqs = []
+    for T in all_tests(b):
+        if T.kind == "cmp" and T.op == "Eq":
+            ea, eb = show(strip_refs(expr(b, T.a)), 6), show(strip_refs(expr(b, T.b)), 6)
+            if {ea.rsplit(".", 1)[-1] if ea.endswith(".tail_block_id") else ea, eb.rsplit(".", 1)[-1] if eb.endswith(".tail_block_id") else eb} == {"tail_block_id", bname + ".id"}:
+                eqs.append(T)
+    stores = {"cur_block_idx": [], "cur_block_offset": []}
+    for site, st in b.assigns():
+        p = st["place"]
+        if p["p"] and isinstance(p["p"][-1], dict) and p["p"][-1].get("n") in stores and str(p["p"][-1].get("o", "")).endswith("ColReaderInfo") and st["rv"]["k"] in ("use", "cast"):
+            stores[p["p"][-1]["n"]].append((site, show(strip_refs(expr(b, st["rv"]["op"])), 8)))
+    ctx.floor("C01.5", "pushes of the sealed block onto the chain", len(pushes), 2)
+    for c in pushes:
+        arg = op_local(b.resolve_copy(c.node["args"][1]))
+        src = show(strip_refs(expr(b, c.node["args"][1])), 4)
+        if not (src == bname or src.startswith("clone(") and bname in src):
+            ctx.violate("C01.5", F, "chain-push-of-another-block", b.relfile, c.line, "the block appended to the chain is %s, not the sealed block handed in" % src[:60])
+        after = b.reachable_after(c.bb)
+        T = next((t for t in eqs if t.bb in after and b.dominates(c.bb, t.bb)), None)
+        if T is None:
+            ctx.violate("C01.5", F, "no-fold-after-push", b.relfile, c.line,
+                        "after appending the sealed block this path never tests `tail_block_id == block.id`: a consumer that was reading the block as the tail keeps cursor (idx, off) "
+                        "of the previous block and re-reads the sealed block from offset 0")
+            continue
+        for fld, want in (("cur_block_idx", r"^(saturating_sub|Sub)\(len\(.*\.chain\)*, 1\)$"), ("cur_block_offset", r"^min\(.*\.tail_offset, %s\.used\)$|^min\(%s\.used, .*\.tail_offset\)$" % (re.escape(bname), re.escape(bname)))):
+            mine = [(s_, e) for s_, e in stores[fld] if b.edge_guards(T.true_edge, s_.bb)]
+            if len(mine) != 1:
+                ctx.violate("C01.5", F, "fold-store-missing:" + fld, b.relfile, b.term(T.bb).get("line"), "under `tail_block_id == block.id` this path stores %s %d times" % (fld, len(mine)))
+            elif not re.search(want, mine[0][1]):
+                ctx.violate("C01.5", F, "fold-value:" + fld, b.relfile, mine[0][0].line, "%s is set to %s when the tail block is sealed" % (fld, mine[0][1][:80]))
+            else:
+                ctx.ok("C01.5", F, "sealing folds %s = %s" % (fld, "len - 1" if fld == "cur_block_idx" else "min(tail_offset, block.used)"), b.relfile, mine[0][0].line)
+    for fld, sts in stores.items():
+        for s_, e in sts:
+            if not any(b.edge_guards(t.true_edge, s_.bb) for t in eqs):
+                ctx.violate("C01.5", F, "fold-outside-guard:" + fld, b.relfile, s_.line, "%s is overwritten at seal time although the consumer was not reading this block as its tail" % fld)
+        norm = {re.sub(r"branch\(.*?\) as Continue\.0", "info", e) for s_, e in sts}
+        if len(norm) > 1:
+            ctx.violate("C01.5", F, "fold-siblings-differ:" + fld, b.relfile, sts[0][0].line, "the fast and the slow path fold %s differently: %s" % (fld, sorted(norm)))
+
+
 def run(ctx):
     for k, v in RULES.items():
         ctx.rule(k, v)
@@ -324,6 +386,7 @@ def run(ctx):
     check_checksum_gate(ctx, facts)
     from .c03 import check_first_entry_widening
     check_first_entry_widening(ctx, facts, rid="C01.4")
+    check_seal_fold(ctx, facts)
     ctx.assume("NOT decided: ordering and once-only delivery across blocks, the planner/budget interaction (e.g. a budget that ends inside a sealed block while the tail holds entries), rotation arithmetic")
     return {
         "explanation": "four structural clauses on MIR: must-pass-through between the per-entry counter and the push into the returned vector (with offset-addressed-only edges derived "
